@@ -458,6 +458,38 @@ AREAS = [
              emits={'RemoveDowntime': ('$events', 'XsRemove {0} {1} {2}', ['Z', 'bool', 'Z'])},
              bind={'downtime->IsActive()': Bb('active'), 'downtime->HasValidConfigOwner()': Bb('valid_owner'), 'downtime->GetName()': Zb('name')}),
     ]),
+    # ---------------------------------------------------------------------------------------- round 2: C10 UpdateObjectAuthority, SetAuthority
+    dict(area='auth2', requires=['Icv.Src.XlPrelude', 'Icv.Auth.AuModel', 'Icv.Facts.Facts_fn_auth'], items=[
+        dict(glue='authority_events', props=['C10'], deps=[], doc='effects of ConfigObject::SetAuthority other than attribute writes (the virtual Resume() / Pause() calls)',
+             text='Inductive xau_ev := XauResume | XauPause.\n'
+                  'Definition xau_len (l : list au_bytes) : Z := Z.of_nat (List.length l).\n'),
+        # the collection of the connected endpoints of the local zone and the cold-start early return
+        dict(name='update_authority_endpoints', func='ApiListener::UpdateObjectAuthority', file='lib/remote/apilistener-authority.cpp', props=['C10'],
+             region=(r'int\s+num_total\s*=\s*0\s*;', r'std::sort\s*\('), region_exit=True, outputs=['endpoints'],
+             inputs=[('members', 'list au_bytes'), ('me', 'au_bytes'), ('conn', 'au_bytes -> bool'), ('now', 'Z'), ('start', 'Z')],
+             ret='void', rcoq='bool * list au_bytes', dummy='(false, nil)',
+             types={'ep': dict(coq='au_bytes', eqb='au_beq'), 'eplist': dict(coq='list au_bytes', elem='ep', default='[]')},
+             locals={'endpoints': ('(@nil au_bytes)', 'eplist')}, aliases={'my_endpoint': 'ME', 'my_zone': 'ZONE'},
+             lists={'ZONE->GetEndpoints()': ('members', 'ep')}, appends={'endpoints.push_back': 'endpoints'},
+             bind={'ME': ('me', 'ep'), 'Application::GetStartTime()': Zb('start'), 'Utility::GetTime()': Zb('now')},
+             fns={'ep->GetConnected': ('conn', ['ep'], 'bool'), 'eplist.size': ('xau_len', ['eplist'], 'u64')}),
+        # the authority of one object: true without a zone, otherwise the endpoint at SDBM(name) % size is this endpoint
+        dict(name='update_authority_decision', func='ApiListener::UpdateObjectAuthority', file='lib/remote/apilistener-authority.cpp', props=['C10'],
+             region=(r'bool\s+authority\s*;', r'object->SetAuthority\s*\('), outputs=['authority'],
+             inputs=[('has_zone', 'bool'), ('endpoints', 'list au_bytes'), ('me', 'au_bytes'), ('name', 'list Z'), ('npos', 'Z')],
+             ret='void', rcoq='bool', dummy='false',
+             types={'ep': dict(coq='au_bytes', eqb='au_beq'), 'eplist': dict(coq='list au_bytes', elem='ep', default='[]')},
+             locals={'endpoints': ('endpoints', 'eplist')}, aliases={'my_endpoint': 'ME', 'my_zone': 'ZONE'},
+             bind={'ME': ('me', 'ep'), 'ZONE': ('has_zone', 'ptr'), 'object->GetName()': ('name', 'chars')},
+             fns={'Utility::SDBM': ('(fun xs => src_utility_sdbm xs npos)', ['chars'], 'u64'), 'eplist.size': ('xau_len', ['eplist'], 'u64')}),
+        dict(name='configobject_set_authority', func='ConfigObject::SetAuthority', file='lib/base/configobject.cpp', props=['C10'],
+             inputs=[('authority', 'bool'), ('paused0', 'bool')], ret='void', dummy='(false, nil)',
+             params={'authority': Bb('authority')},
+             state=[('$paused', 'paused0', 'bool'), ('$events', '(@nil xau_ev)', 'list xau_ev')],
+             getters={'GetPaused()': '$paused'}, setters={'SetPaused': '$paused'},
+             emits={'Resume': ('$events', 'XauResume', []), 'Pause': ('$events', 'XauPause', [])},
+             skip=[r'^Log\(', r'^ObjectLock ', r'^SetResumeCalled\(false\)$', r'^SetPauseCalled\(false\)$', r'^ASSERT\(GetResumeCalled\(\)\)$', r'^ASSERT\(GetPauseCalled\(\)\)$']),
+    ]),
     # ---------------------------------------------------------------------------------------- C18 (tracked, outside the subset today)
     dict(area='perm', requires=['Icv.Src.XlPrelude'], items=[
         # builds Expression objects with `new`, writes through an out-parameter: not translatable; listed so that the evidence
